@@ -13,8 +13,21 @@ import (
 
 var profC01 = vlib.Profile{
 	Prop: "C01", MinLogs: 1, MaxLogs: 2, MinOps: 4, MaxOps: 40,
-	Storages: []string{"mem", "sql"}, Weights: vlib.DefaultWeights, MaxJump: 4096, OtherLogPct: 10, Decorate: 10,
+	Storages: []string{"mem", "sql"}, Weights: weightsC01, MaxJump: 4096, OtherLogPct: 10, Decorate: 10,
 }
+
+// weightsC01 = the default adversarial mix plus size-0 states (a log may sign several
+// "empty tree" checkpoints) and same-size different-root submissions.
+var weightsC01 = func() map[string]int {
+	w := map[string]int{}
+	for k, v := range vlib.DefaultWeights {
+		w[k] = v
+	}
+	w["zero"] = 3
+	w["mismatch"] = 8
+	w["tofufork"] = 4
+	return w
+}()
 
 const ruleC01 = "rapid-generated update histories (forking universe, adversarial op mix) on mem/sql storage; non-trivial = history with >=1 accepted growth from a non-empty state and >=1 later request refused after signature verification; distinct by case hash"
 
